@@ -109,6 +109,39 @@ def main(pid):
         g = {"volume": "12", "reporter": x["string"], "page": "345"} if x["string"] in plain_strings else {"reporter": x["string"], "page": "345"}
         add(minimal_full["shape"], minimal_full["exp"], dict(base, groups=g), "db-full", True)
         add(minimal_short["shape"], minimal_short["exp"], dict(base, shortcomma=False), "db-short", True)
+    # journals: every key / variation whose reporters-db templates admit the minimal form, bare and with
+    # pin cite, year and parenthetical
+    jshape_min = next(x for x in shapes if x["shape"] == {"form": "journal", "lead": "prose", "parties": "none", "preyear": False, "pin": "none",
+                                                          "parallel": False, "yp": "none", "paren": "none", "term": "dot", "trail": "sentence"})
+    jshape_rich = next(x for x in shapes if x["shape"] == {"form": "journal", "lead": "see", "parties": "none", "preyear": False, "pin": "p",
+                                                           "parallel": False, "yp": "year", "paren": "simple", "term": "dot", "trail": "parens"})
+    njournal = shared_strings = 0
+    reporter_strings = {x["string"] for x in db["reporters"]}
+    for j in db["journals"]:
+        if not j["minimal"] or j["string"].endswith(",") or j["string"].endswith(" at"):
+            continue
+        if j["string"] in reporter_strings:
+            # the same string is a reporter string: the library reads it as a case citation; which
+            # database a shared string belongs to is not fixed by the property (counted)
+            shared_strings += 1
+            continue
+        njournal += 1
+        for sh in (jshape_min, jshape_rich):
+            conc = dict(pool[0], R=j["string"], vol="12", page="345", year=1990)
+            text, ex = forms.expected(sh["shape"], sh["exp"], dict(conc, core=f"12 {j['string']} 345",
+                                                                    groups={"volume": "12", "reporter": j["string"], "page": "345"}))
+            for e in ex:
+                e["yearnum"] = int(e["year"]) if e["year"] else -1
+                e["plaintiff_cp"] = []
+            items.append({"text": text, "want_ties": True})
+            exps.append(ex)
+            metas.append({"label": "db-journal", "shape": sh["shape"]})
+    # courts: every parenthetical-safe court string of courts-db in a full case citation
+    cshape = next(x for x in shapes if x["shape"] == {"form": "full", "lead": "none", "parties": "pv", "preyear": False, "pin": "p",
+                                                      "parallel": False, "yp": "court", "paren": "none", "term": "dot", "trail": "sentence"})
+    allcourts = [c for c in db["courts"] if len(c["string"]) >= 2]
+    for c in (allcourts if thorough else allcourts[:: 4]):
+        add(cshape["shape"], cshape["exp"], dict(pool[1], court=c["string"], court_ids=c["ids"]), "db-court")
     obs = vlib.impl_map("drv_extract", "run_forms", items)
     traces = []
     skipped_ties = 0
@@ -134,6 +167,9 @@ def main(pid):
     ev.cov["distinct_nontrivial"] = len({it["text"] for it in items})
     ev.cov["shapes"] = len(shapes)
     ev.cov["reporter_strings_minimal_forms"] = len(seen)
+    ev.cov["journal_strings"] = njournal
+    ev.cov["journal_strings_shared_with_reporters_excluded"] = shared_strings
+    ev.cov["court_strings"] = len(allcourts if thorough else allcourts[:: 4])
     ev.cov["edition_clause_skipped_second_pattern"] = skipped_ties
     ev.cov["reporter_strings_excluded_database_quirks"] = quirks
     ev.cov["rule"] = "every valid Forms.tla shape x concretisations; every plain-template reporter string of reporters-db in the two minimal forms"
